@@ -13,6 +13,7 @@ import CompmechVerif.Gen.Panel.CPanel
 import CompmechVerif.Gen.Panel.KPanel
 import CompmechVerif.Spec.Kinematics
 import CompmechVerif.Core.OpSpecTactics
+import CompmechVerif.Core.OpSpecLemmas
 import Mathlib.Tactic.FinCases
 import Mathlib.Data.Fintype.Basic
 
@@ -49,5 +50,39 @@ theorem kM_entry_kpanel_partial (P : PCtx K) (ha : P.a ≠ 0) (hb : P.b ≠ 0) (
 theorem kMy1y2_entry_kpanel_partial (P : PCtx K) (ha : P.a ≠ 0) (hb : P.b ≠ 0) (ro co : Fin 3) :
     KPanel.fkMy1y2.entry ro co P = hessian P .sub .sub (velOps P) (massW P (-P.d)) (fld3 ro) (fld3 co) := by
   fin_cases ro <;> fin_cases co <;> entry_eq_form [velOps, massW]
+
+
+/-! ### symmetry of the whole mass matrix: `M[r, c] = M[c, r]` for every pair of degrees of freedom
+(`P.swap`: the same integrals with the roles of the row and column basis functions exchanged) -/
+
+theorem kM_symm_plate (P : PCtx K) (ha : P.a ≠ 0) (hb : P.b ≠ 0) (ro co : Fin 3) :
+    Plate.fkM.entry ro co P = Plate.fkM.entry co ro P.swap := by
+  rw [kM_entry_plate_partial P ha hb, kM_entry_plate_partial P.swap ha hb]
+  exact (hessian_swap P _ _ (velOps P) (massW P (-P.d)) (massW_symm P (-P.d)) _ _).symm
+
+theorem kMy1y2_symm_plate (P : PCtx K) (ha : P.a ≠ 0) (hb : P.b ≠ 0) (ro co : Fin 3) :
+    Plate.fkMy1y2.entry ro co P = Plate.fkMy1y2.entry co ro P.swap := by
+  rw [kMy1y2_entry_plate_partial P ha hb, kMy1y2_entry_plate_partial P.swap ha hb]
+  exact (hessian_swap P _ _ (velOps P) (massW P (-P.d)) (massW_symm P (-P.d)) _ _).symm
+
+theorem kM_symm_cpanel (P : PCtx K) (ha : P.a ≠ 0) (hb : P.b ≠ 0) (ro co : Fin 3) :
+    CPanel.fkM.entry ro co P = CPanel.fkM.entry co ro P.swap := by
+  rw [kM_entry_cpanel_partial P ha hb, kM_entry_cpanel_partial P.swap ha hb]
+  exact (hessian_swap P _ _ (velOps P) (massW P (-P.d)) (massW_symm P (-P.d)) _ _).symm
+
+theorem kMy1y2_symm_cpanel (P : PCtx K) (ha : P.a ≠ 0) (hb : P.b ≠ 0) (ro co : Fin 3) :
+    CPanel.fkMy1y2.entry ro co P = CPanel.fkMy1y2.entry co ro P.swap := by
+  rw [kMy1y2_entry_cpanel_partial P ha hb, kMy1y2_entry_cpanel_partial P.swap ha hb]
+  exact (hessian_swap P _ _ (velOps P) (massW P (-P.d)) (massW_symm P (-P.d)) _ _).symm
+
+theorem kM_symm_kpanel (P : PCtx K) (ha : P.a ≠ 0) (hb : P.b ≠ 0) (ro co : Fin 3) :
+    KPanel.fkM.entry ro co P = KPanel.fkM.entry co ro P.swap := by
+  rw [kM_entry_kpanel_partial P ha hb, kM_entry_kpanel_partial P.swap ha hb]
+  exact (hessian_swap P _ _ (velOps P) (massW P (-P.d)) (massW_symm P (-P.d)) _ _).symm
+
+theorem kMy1y2_symm_kpanel (P : PCtx K) (ha : P.a ≠ 0) (hb : P.b ≠ 0) (ro co : Fin 3) :
+    KPanel.fkMy1y2.entry ro co P = KPanel.fkMy1y2.entry co ro P.swap := by
+  rw [kMy1y2_entry_kpanel_partial P ha hb, kMy1y2_entry_kpanel_partial P.swap ha hb]
+  exact (hessian_swap P _ _ (velOps P) (massW P (-P.d)) (massW_symm P (-P.d)) _ _).symm
 
 end Compmech.Panel.C04
